@@ -205,6 +205,13 @@ impl ZerokitMerkleTree for PmTree {
                 Ok(())
             };
         }
+        // (checked here: pmtree computes start + len without checking for overflow)
+        if start
+            .checked_add(v.len())
+            .map_or(true, |end| end > self.capacity())
+        {
+            return Err(Report::msg("provided range exceeds set size"));
+        }
         self.tree
             .set_range(start, v.clone().into_iter())
             .map_err(|e| Report::msg(e.to_string()))?;
